@@ -38,7 +38,7 @@ class Spec:
         out = []
         for p in self.params:
             ty = self.types[p]
-            out.append(sx.arr_sort(ty.elem, ty.ndim) if ty.kind in ("arr", "list") else sx.zsort(ty.kind))
+            out.append(sx.arr_sort(ty.elem, ty.ndim) if ty.kind in ("arr", "list", "set", "setlist", "pairset") else sx.zsort(ty.kind))
         return out
 
     def decl(self):
@@ -50,7 +50,7 @@ class Spec:
         out = []
         for p, a in zip(self.params, args):
             ty = self.types[p]
-            if ty.kind in ("arr", "list"):
+            if ty.kind in ("arr", "list", "set", "setlist", "pairset"):
                 if not isinstance(a, sx.Ref):
                     raise sx.ContractError("spec %s: argument %s must be an array" % (self.name, p))
                 out.append(eng.sel(st, a))
@@ -66,7 +66,7 @@ class Spec:
         st = sx.State()
         for p, z in zip(self.params, zargs):
             ty = self.types[p]
-            if ty.kind in ("arr", "list"):
+            if ty.kind in ("arr", "list", "set", "setlist", "pairset"):
                 base = "spec:%s:%d" % (p, next(sx._fresh))
                 st.heap[base] = sx.HeapObj(z, [z3.Int("speclen!%d" % next(sx._fresh)) for _ in range(ty.ndim)],
                                            ty.elem, ty.ndim)
